@@ -384,7 +384,7 @@ fn drive(p: &Pools, h: usize, w: usize, ops: &[Op]) -> Option<Vec<Vec<(String, V
                 }
             }
             let cmds: Vec<(String, Value)> = term.cmds.iter().map(|c| namer.cmd(c, &drawn)).collect();
-            if !matches!(op, Op::Draw(_)) {
+            if !matches!(op, Op::Draw(_) | Op::Clear) {
                 drawn = blank_surf(h, w);
             }
             out.push(cmds);
@@ -668,6 +668,27 @@ fn gen_history(rng: &mut Rng, p: &Pools) -> Value {
                 ops.push(Op::Skip);
             }
             3 => ops.push(Op::Frame), // a frame with nothing drawn
+            4 => {
+                // the frame-dropping path of run_render: the handler has drawn, then clear(), then frame()
+                let s = g.next_surface(rng, &prev);
+                prev = s.clone();
+                ops.push(Op::Draw(s));
+                ops.push(Op::Clear);
+                ops.push(Op::Frame);
+            }
+            5 => {
+                // drawn twice, or drawn and then the renderer is re-created
+                let s = g.next_surface(rng, &prev);
+                ops.push(Op::Draw(s));
+                if rng.chance(1, 2) {
+                    let s2 = g.next_surface(rng, &prev);
+                    prev = s2.clone();
+                    ops.push(Op::Draw(s2));
+                    ops.push(Op::Frame);
+                } else {
+                    ops.push(Op::Renew);
+                }
+            }
             _ => {
                 let s = g.next_surface(rng, &prev);
                 prev = s.clone();
